@@ -85,7 +85,9 @@ class Tr:
         if nm == 'session_dir.mkdir':
             return [('op', 'mkdirSession')]
         if nm == 'duckdb.connect':
-            return [('op', 'connect' if target in (None, 'conn') else 'connectExtra')]
+            if target in (None, 'conn'):
+                return [('op', 'connect')] + ([('op', 'bindConn')] if (target == 'conn' and not self.inlining) else [])
+            return [('op', 'connectExtra')]
         if nm in ('create_configured_connection', 'configure_duckdb_connection', 'set_decimal_config'):
             if nm == 'set_decimal_config':
                 return [('op', 'setDecimal')]
@@ -97,6 +99,8 @@ class Tr:
             self.inlining.pop()
             if nm == 'create_configured_connection' and target not in (None, 'conn'):
                 inner = [('op', 'connectExtra') if x == ('op', 'connect') else x for x in inner]
+            elif nm == 'create_configured_connection' and target == 'conn' and not self.inlining:
+                inner = inner + [('op', 'bindConn')]          # the caller's variable is bound only when the helper returns
             return inner
         if nm == 'conn.execute':
             a = c.args[0] if c.args else None
@@ -107,7 +111,7 @@ class Tr:
         if nm == 'register_regex_functions':
             return [('op', 'registerUdf')]
         if nm == 'conn.close':
-            return [('op', 'close')]
+            return [('op', 'closeInner' if self.inlining else 'close')]
         if nm.endswith('.close'):
             return [('op', 'closeExtra')]
         if nm == 'shutil.rmtree':
